@@ -273,6 +273,10 @@ class RunScenario:
                 os.makedirs(am, exist_ok=True)
                 with open(os.path.join(am, name + ".json"), "w") as f:
                     json.dump(content, f)
+                if "." in name:
+                    # a file at the name cut at its first dot: nobody asks for it, it is never read
+                    with open(os.path.join(am, name.split(".")[0] + ".json"), "w") as f:
+                        json.dump({c: ["--decoy-argmap"] for c in self.all_commands}, f)
         return repo
 
     def argv(self):
